@@ -123,6 +123,7 @@ type Options struct {
 	AllowPaths     bool
 	AllowOrderLim  bool
 	Exclude        map[string]bool // feature names to avoid (known-finding exclusions by construction)
+	Bias           string          // "lowerings": shift weights towards the shapes the optimiser's lowerings look for
 }
 
 func DefaultOptions() Options {
@@ -177,6 +178,15 @@ func Generate(t *rapid.T, o Options) Query {
 		o.MaxClauses = 3
 	}
 	g := &gen{t: t, o: o, feats: map[string]bool{}, params: map[string]any{}}
+	if o.Bias == "lowerings" && g.chance("template", 1, 2) {
+		text := g.loweringTemplate()
+		feats := make([]string, 0, len(g.feats))
+		for f := range g.feats {
+			feats = append(feats, f)
+		}
+		sort.Strings(feats)
+		return Query{Text: text, Features: feats}
+	}
 	var sb strings.Builder
 	nclauses := 1 + g.pick("nclauses", o.MaxClauses)
 	if nclauses > 1 && g.chance("fewer", 1, 2) {
@@ -940,4 +950,116 @@ func (g *gen) unwind() string {
 	}
 	g.scope = append(g.scope, Var{x, typ})
 	return "unwind " + src + " as " + x
+}
+
+// ---------- shapes the optimiser's lowerings look for (C02)
+
+func (g *gen) nk() string { return rapid.SampledFrom(NodeKinds).Draw(g.t, "tnk") }
+func (g *gen) ek() string { return rapid.SampledFrom(EdgeKinds).Draw(g.t, "tek") }
+func (g *gen) optKind(label string) string {
+	if g.chance(label, 1, 2) {
+		return ":" + g.nk()
+	}
+	return ""
+}
+func (g *gen) eks() string {
+	if g.chance("teks2", 1, 3) {
+		perm := rapid.Permutation(EdgeKinds).Draw(g.t, "teksp")
+		return perm[0] + "|" + perm[1]
+	}
+	return g.ek()
+}
+func (g *gen) rng() string {
+	return rapid.SampledFrom([]string{"*1..", "*1..2", "*0..", "*..2", "*", "*2..2", "*1..1", "*2", "*1..3", "*0..1"}).Draw(g.t, "trng")
+}
+func (g *gen) anchor(v string) string {
+	switch g.pick("tanchor", 5) {
+	case 0:
+		return v + ".name = '" + rapid.SampledFrom(names).Draw(g.t, "tan") + "'"
+	case 1:
+		return v + ".name ends with '" + rapid.SampledFrom([]string{"a", "b", "1", "c"}).Draw(g.t, "tae") + "'"
+	case 2:
+		return v + ".value = " + fmt.Sprintf("%d", g.pick("tav", 5))
+	case 3:
+		return v + ".flag = true"
+	default:
+		return v + ".value > " + fmt.Sprintf("%d", g.pick("tav2", 4))
+	}
+}
+func (g *gen) lim() string {
+	if g.chance("tlim", 2, 3) {
+		return fmt.Sprintf(" limit %d", 1+g.pick("tlimn", 4))
+	}
+	return ""
+}
+
+func (g *gen) loweringTemplate() string {
+	k := g.pick("tmpl", 15)
+	g.feat(fmt.Sprintf("template-%d", k))
+	switch k {
+	case 0: // count fast paths
+		switch g.pick("t0", 5) {
+		case 0:
+			return "match (n" + g.optKind("t0k") + ") return count(n)"
+		case 1:
+			return "match (n" + g.optKind("t0k") + ") return count(*)"
+		case 2:
+			return "match ()-[r:" + g.eks() + "]->() return count(r)"
+		case 3:
+			return "match (a" + g.optKind("t0k") + ")-[r" + ":" + g.ek() + "]->(b" + g.optKind("t0k2") + ") return count(r)"
+		default:
+			return "match ()-[r]->() return count(*)"
+		}
+	case 1: // anchored expansion, either end
+		if g.chance("t1in", 1, 2) {
+			return "match (a)<-[:" + g.eks() + g.rng() + "]-(b" + g.optKind("t1k") + ") where " + g.anchor("b") + " return a"
+		}
+		return "match (a" + g.optKind("t1k") + ")-[:" + g.eks() + g.rng() + "]->(b) where " + g.anchor("a") + " return b"
+	case 2: // terminal anchor: direction selection
+		return "match p = (a)-[:" + g.eks() + g.rng() + "]->(b" + g.optKind("t2k") + ") where " + g.anchor("b") + " return p" + g.lim()
+	case 3: // suffix after expansion + limit
+		return "match p = (a" + g.optKind("t3k") + ")-[:" + g.ek() + g.rng() + "]->(b)-[:" + g.eks() + "]->(c" + g.optKind("t3k2") + ") return p" + g.lim()
+	case 4: // collect + IN membership
+		neg := ""
+		if g.chance("t4not", 2, 3) {
+			neg = "not "
+		}
+		return "match (s)-[:" + g.ek() + g.rng() + "]->(g" + g.optKind("t4k") + ") with collect(s) as ex match (c)-[:" + g.eks() + "]->(d) where " + neg + "c in ex return c, d"
+	case 5: // aggregate traversal count
+		return "match (u" + g.optKind("t5k") + ") where " + g.anchor("u") + " match (u)-[:" + g.eks() + g.rng() + "]->(c" + g.optKind("t5k2") + ") with distinct u, count(c) as cnt return u order by cnt desc" + g.lim()
+	case 6: // quantifier over relationships(p)
+		q := rapid.SampledFrom([]string{"all", "any", "none"}).Draw(g.t, "t6q")
+		pred := rapid.SampledFrom([]string{"r.value > 0", "r.flag = true", "r.name = 'a'", "type(r) = 'R'", "r.value <= 2"}).Draw(g.t, "t6p")
+		return "match p = (a" + g.optKind("t6k") + ")-[:" + g.eks() + g.rng() + "]->(b) where " + q + "(r in relationships(p) where " + pred + ") return p"
+	case 7: // typed edge with negated type
+		return "match p = (s" + g.optKind("t7k") + ")-[r:" + EdgeKinds[0] + "|" + EdgeKinds[1] + "]->(t) where not r:" + EdgeKinds[g.pick("t7n", 2)] + " return p" + g.lim()
+	case 8: // exact ranges
+		return "match (a)-[:" + g.ek() + rapid.SampledFrom([]string{"*1..1", "*2..2", "*2", "*3..3", "*1"}).Draw(g.t, "t8r") + "]->(b" + g.optKind("t8k") + ") return a, b"
+	case 9: // shared endpoints fan-out
+		return "match (n" + g.optKind("t9k") + ") where " + g.anchor("n") + " match p1 = (n)-[:" + g.ek() + "]->(x)-[:" + g.ek() + "]->(d) match p2 = (n)-[:" + g.ek() + "]->(y)-[:" + g.ek() + "]->(d) return p1, p2"
+	case 10: // expand into
+		if g.chance("t10two", 1, 2) {
+			return "match (a)-[:" + g.ek() + "]->(b), (a)-[:" + g.ek() + "]->(b) return a, b"
+		}
+		return "match (a" + g.optKind("t10k") + ")-[:" + g.ek() + "]->(b) match (b)-[:" + g.ek() + "]->(a) return a, b"
+	case 11: // distinct + limit, order + limit
+		switch g.pick("t11", 3) {
+		case 0:
+			return "match (a)-[:" + g.eks() + "]->(b) return distinct b" + g.lim()
+		case 1:
+			return "match (a)-[:" + g.eks() + "]->(b) return b.name order by b.name" + g.lim()
+		default:
+			return "match (a" + g.optKind("t11k") + ")-[:" + g.eks() + g.rng() + "]->(b) return distinct a.name, b.value order by a.name, b.value" + g.lim()
+		}
+	case 12: // pattern predicate placement
+		return "match p = (n" + g.optKind("t12k") + ")-[:" + g.eks() + "]-(m" + g.optKind("t12k2") + ") where (n)-[:" + g.eks() + "]-(m) return p" + g.lim()
+	case 13: // leading unbounded expansion, selective terminal: inbound traversal reversal
+		w := g.anchor("d")
+		if g.chance("t14s", 1, 2) {
+			w += " and " + g.anchor("s")
+		}
+		return "match p = (s" + g.optKind("t14k") + ")-[:" + g.ek() + rapid.SampledFrom([]string{"*0..", "*1..", "*"}).Draw(g.t, "t14r") + "]->(" + g.optKind("t14k2") + ")-[:" + g.eks() + "]->(d" + g.optKind("t14k3") + ") where " + w + " return " + rapid.SampledFrom([]string{"p", "p", "s, d", "nodes(p)"}).Draw(g.t, "t14ret")
+	default: // path functions, late path materialisation
+		return "match p = (a" + g.optKind("t13k") + ")-[:" + g.eks() + g.rng() + "]->(b) where " + g.anchor("a") + " return " + rapid.SampledFrom([]string{"nodes(p)", "relationships(p)", "size(relationships(p))", "b, size(nodes(p))", "p, a.name"}).Draw(g.t, "t13f")
+	}
 }
